@@ -233,6 +233,18 @@ def g_nx_message(rng, kind=None):
 NX_MESSAGE_KINDS = ["flow_mod_table_id", "packet_in_format", "role_request", "role_reply", "async_config", "nx_flow_mod", "nxt_packet_in", "ofp_flow_mod_table_id"]
 
 
+def g_fm_data(rng, variant=None):
+    """a flow-mod whose `data` is a packet-in: buffered / unbuffered complete / incomplete"""
+    fm = ofgen.message(rng, "flow_mod")
+    v = variant or rng.choice(["buffered", "unbuffered", "unbuffered", "incomplete"])
+    n = rng.choice([0, 1, 60, rng.randint(0, 300)])
+    kw = dict(xid=rint(rng, U32), in_port=rint(rng, U16), reason=rng.randint(0, 1), data=rbytes(rng, n).hex())
+    if v == "buffered": kw["buffer_id"] = rint(rng, U32 - 1); kw["total_len"] = n + rng.choice([0, 40])
+    elif v == "unbuffered": kw["buffer_id"] = None
+    else: kw["buffer_id"] = None; kw["total_len"] = n + rng.randint(1, 100)
+    return {"kind": "fm_data", "spec": fm, "data": {"cls": "ofp_packet_in", "kw": kw}}
+
+
 def abnormal_match(rng):
     """a match that sets fields whose protocol prerequisites are absent (the library warns and normalises)"""
     kw = {"dl_type": rng.choice([0x88cc, 0x806, 0x800, None])}
@@ -428,6 +440,7 @@ class C01(Check):
         if kind == "match": return self.impl_match(case)
         if kind == "nxm": return self.impl_nxm(case)
         if kind == "stale": return self.impl_stale(case)
+        if kind == "fm_data": return self.impl_fm_data(case)
         obj = self.B.build(case["spec"])
         out = {"cls": type(obj).__name__}
         try:
@@ -564,6 +577,75 @@ class C01(Check):
             out["outcome"] = "raise:" + type(e).__name__; out["where"] = "unpack"; out["msg"] = str(e)[:120]
         return out
 
+    def split_messages(self, b):
+        out, p = [], 0
+        while p < len(b):
+            if len(b) - p < 8: raise ValueError("trailing bytes that are not a message")
+            l = struct.unpack_from("!H", b, p + 2)[0]
+            if l < 8 or p + l > len(b): raise ValueError("header length %d does not frame the remaining %d bytes" % (l, len(b) - p))
+            out.append(b[p:p + l]); p += l
+        return out
+
+    def impl_fm_data(self, case):
+        """ofp_flow_mod with `data` = a packet-in (libopenflow_01.py:2322-2354): what goes on the wire"""
+        of = self.of
+        fm = self.B.build(case["spec"])
+        pi = self.B.build(case["data"])
+        own = fm._buffer_id
+        fm.data = pi
+        out = {"cls": "ofp_flow_mod", "own_buffer": own,
+               "pi": {"buffer_id": pi._buffer_id, "in_port": pi.in_port, "total_len": pi.total_len, "data": (pi.data or b"").hex()},
+               "complete": bool(pi.is_complete)}
+        try:
+            b = fm.pack()
+        except Exception as e:
+            out["pack"] = None; out["outcome"] = "raise:" + type(e).__name__; out["where"] = "pack"; out["msg"] = str(e)[:120]; return out
+        out["pack"] = b.hex()
+        try:
+            msgs = self.split_messages(b)
+        except Exception as e:
+            out["frames"] = "!%s" % e; return out
+        out["frames"] = [m.hex() for m in msgs]
+        rec = self.rec_of(fm); rec["vals"]["buffer_id"] = own
+        out["rec"] = rec
+        out["xb"] = struct.unpack_from("!L", msgs[1], 4)[0] if len(msgs) > 1 else 0
+        out["xp"] = struct.unpack_from("!L", msgs[2], 4)[0] if len(msgs) > 2 else 0
+        self._rec_cache[id(case)] = out
+        try:
+            off, f2 = of.ofp_flow_mod.unpack_new(msgs[0])
+            out["fm_buffer"] = f2._buffer_id
+            f2.data = None
+            fm_cmp = of.ofp_flow_mod.unpack_new(msgs[0])[1]
+            out["fm_rest_equal"] = all(getattr(f2, a) == getattr(fm, a) for a in
+                                       ("match", "cookie", "command", "idle_timeout", "hard_timeout", "priority", "out_port", "flags", "actions", "xid"))
+            if len(msgs) == 3:
+                out["types"] = [m[1] for m in msgs]
+                off, po = of.ofp_packet_out.unpack_new(msgs[2])
+                out["po"] = {"buffer_id": po._buffer_id, "in_port": po.in_port, "data": (po.data or b"").hex(),
+                             "actions": [[type(a).__name__, getattr(a, "port", None)] for a in po.actions]}
+        except Exception as e:
+            out["outcome"] = "raise:" + type(e).__name__; out["where"] = "unpack"; out["msg"] = str(e)[:120]
+        return out
+
+    def oracle_fm_data(self, case, obs):
+        if obs.get("pack") is None: return "pack raises %s" % obs.get("outcome", "?")[6:]
+        if isinstance(obs.get("frames"), str): return "the bytes are not a sequence of framed messages: %s" % obs["frames"][1:]
+        if obs.get("where") == "unpack": return "unpack raises %s" % obs.get("outcome", "?")[6:]
+        pi = obs["pi"]
+        unbuffered = pi["buffer_id"] == 0xffffffff
+        want_n = 3 if (obs["complete"] and unbuffered) else 1
+        if len(obs["frames"]) != want_n: return "%d messages on the wire, expected %d" % (len(obs["frames"]), want_n)
+        want_buf = pi["buffer_id"] if obs["complete"] else obs["own_buffer"]
+        if obs.get("fm_buffer") != want_buf: return "flow-mod carries buffer_id %s, expected %s" % (obs.get("fm_buffer"), want_buf)
+        if not obs.get("fm_rest_equal"): return "flow-mod fields changed on the wire"
+        if want_n == 3:
+            if obs["types"] != [14, 18, 13]: return "message types %s, expected flow-mod, barrier-request, packet-out" % obs["types"]
+            po = obs["po"]
+            if po["data"] != pi["data"] or po["in_port"] != pi["in_port"] or po["buffer_id"] != 0xffffffff \
+                    or po["actions"] != [["ofp_action_output", 0xfff9]]:
+                return "packet-out does not re-inject the packet-in (data / in_port / no buffer / output:TABLE)"
+        return None
+
     def impl_stale(self, case):
         """ofp_stats_request packed, its body replaced, packed again: the second pack must carry the new body"""
         o = self.B.build(case["spec"])
@@ -597,6 +679,11 @@ class C01(Check):
                 return {"op": "nxm", "entries": ents, "trailer": TRAILER.hex()}
             except Exception:
                 return None
+        if kind == "fm_data":
+            o = self._rec_cache.get(id(case))
+            if not isinstance(o, dict) or "frames" not in o: o = self.impl(case)
+            if not isinstance(o.get("frames"), list) or o.get("rec") is None: return None
+            return {"op": "fm_data", "rec": o["rec"], "data": o["pi"], "xb": o["xb"], "xp": o["xp"]}
         if kind != "obj": return None
         cname = case["spec"]["cls"]
         rec = self._rec_cache.get(id(case), "?")
@@ -618,6 +705,8 @@ class C01(Check):
                     "normal": obs.get("normal_fix"), "eqv": obs.get("eq"), "eqv_fixed": obs.get("eq_fixed")}
         if kind == "nxm":
             return {"pack": obs.get("pack"), "entries": obs.get("entries"), "consumed": obs.get("consumed")}
+        if kind == "fm_data":
+            return {"msgs": obs.get("frames")}
         v = {"pack": obs.get("pack")}
         if obs.get("pack") is not None:
             v["len"] = obs.get("len"); v["hdr"] = obs.get("hdr")
@@ -634,6 +723,8 @@ class C01(Check):
                     "normal": resp.get("normal"), "eqv": resp.get("eqv"), "eqv_fixed": resp.get("eqv_fixed")}
         if kind == "nxm":
             return {"pack": resp.get("pack"), "entries": resp.get("entries"), "consumed": resp.get("consumed")}
+        if kind == "fm_data":
+            return {"msgs": resp.get("msgs")}
         v = {"pack": resp.get("pack")}
         if resp.get("pack") is not None:
             v["len"] = resp.get("len"); v["hdr"] = resp.get("hdr")
@@ -650,6 +741,7 @@ class C01(Check):
     # ------------------------------------------------------------------ the property on the implementation's observables
     def oracle(self, case, obs):
         kind = case.get("kind", "obj")
+        if kind == "fm_data": return self.oracle_fm_data(case, obs)
         if kind == "stale":
             if obs.get("pack") is None: return "pack raises %s" % obs.get("outcome")
             if obs["body_on_wire"] != obs["body_set"]: return "stale body: pack() after assigning a new body still sends the old one"
@@ -892,6 +984,9 @@ class C01(Check):
         for _ in range(12): cases.append(self.obj(g_nx_action(rng, "learn")))
         for k in NX_ACTION_KINDS:
             for _ in range(3): cases.append(self.obj(g_nx_action(rng, k)))
+        # ofp_flow_mod carrying a packet-in as `data`
+        for v in ("buffered", "unbuffered", "incomplete"):
+            for _ in range(8): cases.append(g_fm_data(rng, v))
         # a request object re-used with a new body
         cases.append({"kind": "stale", "spec": {"cls": "ofp_stats_request", "kw": dict(xid=1, body={"cls": "ofp_port_stats_request", "kw": dict(port_no=1)})},
                       "body2": {"cls": "ofp_port_stats_request", "kw": dict(port_no=2)}})
@@ -907,6 +1002,7 @@ class C01(Check):
             elif r < 0.70: yield self.obj(g_any_action(rng))
             elif r < 0.78: yield self.obj(g_nx_action(rng))
             elif r < 0.83: yield self.obj(g_nx_message(rng))
+            elif r < 0.85: yield g_fm_data(rng)
             elif r < 0.93:
                 sp = ofgen.match(rng) if rng.random() < 0.6 else abnormal_match(rng)
                 yield {"kind": "match", "spec": sp, "flow_mod": rng.random() < 0.5}
